@@ -58,6 +58,9 @@ PROGRAMS = {
     'start': {'nodes': [P(2), G([], [P(3)], [P(4)])], 'start': P(1)},
     'plugs': {'nodes': [dict(P(1), plugs=[['a', 0]]), G([dict(P(2), plugs=[['b', 1]])], [P(3)], [dict(P(4), plugs=[['a', 0]])])],
               'plugs': {'0': {}, '1': {}}},
+    # a main body stuck in C code for good (the termination request is swallowed), no patience with it (cancel_timeout_s = 0)
+    'stuck': {'nodes': [G([P(1)], [dict(P(2), timeout_s=0.4, beh=[{'raw': 'cont', 'sleep': 1000000.0, 'unkillable': True}])], [P(3)]), P(4)],
+              'conf': {'cancel_timeout_s': 0}},
     'tdrepeat': {'nodes': [G([], [P(1)], [dict(P(2), opts={'limit': 2}, beh=[{'raw': 'rep', 'sleep': 0.02, 'steps': 2},
                                                                                   {'raw': 'cont', 'sleep': 0.02, 'steps': 2}]), P(3)])]},
 }
@@ -346,11 +349,12 @@ def run_real(case):
       def append(self, x):
         list.append(self, x)
         s = sched.SCHED
-        if s is not None:
+        # (only this run's scheduler: a body abandoned by an earlier case of this worker process may still be running)
+        if s is not None and s is env.get('sched'):
           s.events.append((s.me().name if s.me() else '?', 'h', None, x))
     ctx.events = L()
   out = sched_exec.run_case(prog, choose=_chooser(case), aux=aux, prepare=prepare, max_steps=40000,
-                            pre_runs=1 if case.get('rerun') else 0)
+                            pre_runs=1 if case.get('rerun') else 0, conf=prog.get('conf'))
   s = out['sched']
   if case.get('rerun'):
     # only the run under test is judged
